@@ -7,6 +7,7 @@ pub mod c06;
 pub mod c07;
 pub mod c11;
 pub mod c12;
+pub mod c13;
 
 use symcore::Config;
 
@@ -21,11 +22,17 @@ pub fn instances(prop: &str, tier: &str, seed: u64) -> Vec<String> {
         "C07" => c07::instances(tier, seed),
         "C11" => c11::instances(tier),
         "C12" => c12::instances(tier),
+        "C13" => c13::instances(tier),
         _ => vec![],
     }
 }
 
-pub fn configure(_prop: &str, _inst: &str, _cfg: &mut Config) {}
+pub fn configure(prop: &str, inst: &str, cfg: &mut Config) {
+    match prop {
+        "C13" => c13::configure(inst, cfg),
+        _ => {}
+    }
+}
 
 pub fn body(prop: &str, inst: &str) {
     match prop {
@@ -38,6 +45,7 @@ pub fn body(prop: &str, inst: &str) {
         "C07" => c07::body(inst),
         "C11" => c11::body(inst),
         "C12" => c12::body(inst),
+        "C13" => c13::body(inst),
         _ => panic!("unknown property {}", prop),
     }
 }
